@@ -480,7 +480,7 @@ def run(c):
     emitter, host = bc.prepare(c)
     if not emitter or not host:
         return
-    n_worlds = 12 if quick else 80
+    n_worlds = 10 if quick else 80
     steps = 40 if quick else 120
     items = []
     stats = {}
